@@ -32,6 +32,16 @@ def run(ctx):
         if dup:
             k = next(iter(dup)); vf.violation(ctx, f'{k} repeats: {dup[k][0]} (calls #{dup[k][1]} and #{dup[k][2]})', {'mode': ' '.join(args), 'config': cfg, 'kind': k, 'value': str(dup[k][0])})
         if len(ctx.samples) < 4 and vals: ctx.samples.append({k: v[0] for k, v in list(vals.items())[:6]})
+    # the metadata key must differ from the secret handed to the caller, whatever the authentication data
+    import demcheck
+    d = demcheck.Demd(); same = []
+    ads = [None, b''] + [bytes([b]) for b in range(256)] + [b'ad', b'\x00\x00', b'\x01\x00', b'\x00\x01', b'Covercrypt AE key'] + ([bytes([a, b]) for a in range(4) for b in range(256)] if not ctx.quick() else [])
+    for ad in ads:
+        for md in (b'm', b''):
+            if d.ask(f'HDRKEY {demcheck.opt(md)} {demcheck.opt(ad)}') != 'DIFF': same.append((md, ad))
+    ctx.evaluations += d.n; d.close()
+    ctx.ob('freshness', f'the secret returned by EncryptedHeader::generate never decrypts the encrypted metadata as an AES key ({len(ads)} authentication data values incl. every single byte)', not same, str(same[:3]))
+    if same: vf.violation(ctx, f'the secret handed to the caller IS the metadata encryption key when the authentication data is {same[0][1]!r}', {'mode': 'HDRKEY', 'metadata_hex': same[0][0].hex(), 'authentication_data_hex': (same[0][1] or b'').hex(), 'config': 'default'})
     ctx.nontrivial = max(2, ctx.evaluations)
     ctx.rule = (f'{n} identical calls of each kind on one instance, {max(50, n // 20)} on each of 8 instances, 8 threads on a shared instance, and the alternative build; '
                 'values compared pairwise per kind; the encrypted metadata is additionally decrypted with the RETURNED secret as AES key and must fail; distinct non-trivial = number of fresh values compared')
